@@ -128,7 +128,9 @@ def split_netloc(
         hostname, _, port_str = hostinfo.partition(":")
 
     if not port_str:
-        return username or None, password, hostname or None, None
+        # an authority that consists of userinfo/port markers only has an
+        # empty host, only a missing authority has none
+        return username or None, password, hostname if netloc else None, None
 
     try:
         port = int(port_str)
@@ -136,7 +138,7 @@ def split_netloc(
         raise ValueError("Invalid URL: port can't be converted to integer")
     if not (0 <= port <= 65535):
         raise ValueError("Port out of range 0-65535")
-    return username or None, password, hostname or None, port
+    return username or None, password, hostname, port
 
 
 def unsplit_result(
